@@ -72,9 +72,13 @@ Accept(d, ps) ==
        (IF \E i \in 1..Len(d) : d[i].kind \in OutOfFlow /\ \E q \in 1..Len(BodyToks(d, i)) : Count(all, BodyToks(d, i)[q]) = 0 THEN "out-of-flow-lost"
         ELSE "out-of-flow-duplicated-or-reordered")
   ELSE IF \E p \in 1..Len(ps) : \E i \in 1..Len(d) : d[i].kind = "table" /\
-            LET onpage == \E q \in 1..Len(ps[p]) : ps[p][q].it = i /\ ps[p][q].role = 0 IN
+            LET onpage == \E q \in 1..Len(ps[p]) : ps[p][q].it = i /\ ps[p][q].role = 0
+                \* a table whose rows can be split inside their cells (option 3) may have a fragment without any body
+                \* token: the page after one that holds the table; the groups may be repeated there
+                cont == d[i].opt = 3 /\ p > 1 /\ \E q \in 1..Len(ps[p - 1]) : ps[p - 1][q].it = i IN
             \E t \in {HeadToks(d, i)[q] : q \in 1..Len(HeadToks(d, i))} \cup {FootToks(d, i)[q] : q \in 1..Len(FootToks(d, i))} :
-               Count(ps[p], t) # (IF onpage THEN 1 ELSE 0) THEN "table-header-footer-not-once-per-fragment"
+               IF onpage THEN Count(ps[p], t) # 1 ELSE (Count(ps[p], t) # 0 /\ ~(cont /\ Count(ps[p], t) = 1))
+          THEN "table-header-footer-not-once-per-fragment"
   ELSE IF \E p \in 1..Len(ps) : \E i \in 1..Len(d) : d[i].kind = "fixed" /\ Count(ps[p], Tok(i, 3, 1)) # 1 THEN "fixed-not-once-per-page"
   ELSE IF \E i \in 1..Len(d) : d[i].kind = "running" /\
             LET on == {p \in 1..Len(ps) : Count(ps[p], Tok(i, 4, 1)) > 0}
